@@ -1863,8 +1863,12 @@ def combine_expressions(
 
     if unique:
         # Remove duplicate element in the expressions list
-        # and preserve original order
-        expressions = list({str(x): x for x in expressions}.values())
+        # and preserve original order: keep the first of the
+        # expressions that render alike
+        firsts = {}
+        for x in expressions:
+            firsts.setdefault(str(x), x)
+        expressions = list(firsts.values())
 
     if len(expressions) == 1:
         return expressions[0]
